@@ -5,6 +5,7 @@ import (
 	"strings"
 
 	"github.com/smarthome-go/homescript/v3/homescript/errors"
+	"github.com/smarthome-go/homescript/v3/homescript/lexer"
 	"github.com/smarthome-go/homescript/v3/homescript/lexer/util"
 	"github.com/smarthome-go/homescript/v3/homescript/parser/ast"
 )
@@ -308,8 +309,8 @@ type AnalyzedObjectLiteralField struct {
 
 func (self AnalyzedObjectLiteralField) String() string {
 	var key string
-	if !util.IsIdent(self.Key.Ident()) {
-		key = fmt.Sprintf("\"%s\"", self.Key.Ident())
+	if !lexer.IsIdent(self.Key.Ident()) {
+		key = fmt.Sprintf("\"%s\"", util.EscapeString(self.Key.Ident()))
 	} else {
 		key = self.Key.Ident()
 	}
